@@ -89,6 +89,14 @@ pub fn run(ctx: &mut Ctx, replay: Option<&str>) {
                     m.insert("list_with_object".into(), json!([1, {"inner": "x"}, [ {"deep": true} ]]));
                 }
             }
+            // iat is not constrained by the quantifier: sometimes a structured value (always visible, copied in clear)
+            if r.chance(1, 4) {
+                if let Some(m) = bad.claims.as_object_mut() {
+                    m.insert("iat".into(), json!({"at": 1700000000, "sources": [{"name": "ntp"}, "gps"], "meta": {"tz": "UTC"}}));
+                }
+            }
+            // the control is exactly the same claim set without the planted member
+            let control = bad.clone();
             let mut ps = vec![];
             object_paths(&bad.claims, &vec![], &mut ps);
             // never beneath the always-visible iss/iat/exp (they are strings / numbers anyway)
